@@ -136,3 +136,165 @@ Lemma parse_examples :
      = POk (PStr "a,b")
   /\ parse_value_with_config NoopConfig "[1, 2]" = POk (PStr "[1, 2]").
 Proof. vm_compute. repeat split; reflexivity. Qed.
+
+(** * C07: the parser never panics (in the model: no run ends in PPanic) *)
+Definition no_panic {A} (r : pres A) : Prop := r <> PPanic.
+
+Lemma pbind_no_panic {A B} (x : pres A) (f : A -> pres B) :
+  no_panic x -> (forall a, no_panic (f a)) -> no_panic (pbind x f).
+Proof. unfold no_panic. destruct x; simpl; auto; intros; discriminate. Qed.
+
+Lemma non_quoted_no_panic s stop : no_panic (non_quoted s stop).
+Proof. unfold no_panic, non_quoted. destruct (index_any s stop) as [[|n]|]; discriminate. Qed.
+
+Lemma primitive_of_no_panic c : no_panic (primitive_of c).
+Proof.
+  unfold no_panic, primitive_of. destruct (String.eqb c "null"); [discriminate|].
+  destruct (bool_word c); [discriminate|]. destruct (parse_uint0_opt c); [discriminate|].
+  destruct (parse_int0 c); [discriminate|]. destruct (parse_float_dec c); discriminate.
+Qed.
+
+Lemma parse_primitive_no_panic s stop : no_panic (parse_primitive s stop).
+Proof.
+  unfold parse_primitive. apply pbind_no_panic; [apply non_quoted_no_panic|]. intro x.
+  apply pbind_no_panic; [apply primitive_of_no_panic|]. intro v. discriminate.
+Qed.
+
+Lemma parse_dquote_no_panic s : no_panic (parse_dquote s).
+Proof.
+  unfold no_panic, parse_dquote. destruct (dq_end _ s 1); [|discriminate].
+  destruct (unquote_dq _); discriminate.
+Qed.
+
+Lemma parse_squote_no_panic s : no_panic (parse_squote s).
+Proof. unfold no_panic, parse_squote. destruct (index_byte _ _); discriminate. Qed.
+
+Lemma expect_char_no_panic c e s : no_panic (expect_char c e s).
+Proof. unfold no_panic, expect_char. destruct s; [discriminate|]. destruct (Ascii.eqb _ _); discriminate. Qed.
+
+Lemma parse_key_no_panic s : no_panic (parse_key s).
+Proof.
+  unfold parse_key. destruct s as [|a r]; [discriminate|].
+  destruct (Ascii.eqb a """"%char); [apply parse_dquote_no_panic|].
+  destruct (Ascii.eqb a "'"%char); [apply parse_squote_no_panic|]. apply non_quoted_no_panic.
+Qed.
+
+Section Loops.
+  Variable cfg : pcfg.
+  Variable f : nat.
+
+  Definition arr_loop_of :=
+    fix arr_loop (n : nat) (s : string) (acc : list pv) {struct n} : pres (pv * string) :=
+      match n with
+      | O => PUnknown
+      | S n' =>
+        let s := trim_left s in
+        match s with
+        | EmptyString => PErr PEArrClose
+        | String c r' =>
+          if Ascii.eqb c "]"%char
+          then POk (match acc with [] => PNil | _ => PArr (rev acc) end, r')
+          else
+            x <~ parse_value cfg f s arrayElemStopSet ;;
+            let s2 := trim_left (snd x) in
+            match s2 with
+            | EmptyString => PErr PEArrClose
+            | String nx r2 =>
+              if Ascii.eqb nx "]"%char then POk (PArr (rev (fst x :: acc)), r2)
+              else if Ascii.eqb nx ","%char then arr_loop n' r2 (fst x :: acc)
+              else PErr PEArrSep
+            end
+        end
+      end.
+
+  Definition obj_loop_of :=
+    fix obj_loop (n : nat) (s : string) (acc : list (string * pv)) {struct n} : pres (pv * string) :=
+      match n with
+      | O => PUnknown
+      | S n' =>
+        let s := trim_left s in
+        match s with
+        | EmptyString => PErr PEDictSep
+        | String c r' =>
+          if Ascii.eqb c "}"%char
+          then POk (match acc with [] => PNil | _ => PObj acc end, r')
+          else
+            k <~ parse_key s ;;
+            s1 <~ expect_char ":"%char PEExpectColon (trim_left (snd k)) ;;
+            x <~ parse_value cfg f s1 objValueStopSet ;;
+            match trim_left (snd x) with
+            | EmptyString => PErr PEDictSep
+            | String nx r2 =>
+              let acc' := dict_set (fst k) (fst x) acc in
+              if Ascii.eqb nx "}"%char then POk (PObj acc', r2)
+              else if Ascii.eqb nx ","%char then obj_loop n' r2 acc'
+              else PErr PEDictSep
+            end
+        end
+      end.
+
+  Lemma parse_value_unfold s stop :
+    parse_value cfg (S f) s stop =
+    match trim_left s with
+    | EmptyString => POk (PNil, trim_left s)
+    | String a r =>
+      if Ascii.eqb a "["%char && c_array cfg then arr_loop_of (S f) r []
+      else if Ascii.eqb a "{"%char && c_object cfg then obj_loop_of (S f) r []
+      else if Ascii.eqb a """"%char && c_dq cfg then x <~ parse_dquote (trim_left s) ;; POk (PStr (fst x), snd x)
+      else if Ascii.eqb a "'"%char && c_sq cfg then x <~ parse_squote (trim_left s) ;; POk (PStr (fst x), snd x)
+      else parse_primitive (trim_left s) stop
+    end.
+  Proof. cbn [parse_value]. destruct (trim_left s); reflexivity. Qed.
+
+  Hypothesis IH : forall s stop, no_panic (parse_value cfg f s stop).
+
+  Lemma arr_loop_no_panic : forall n s acc, no_panic (arr_loop_of n s acc).
+  Proof.
+    induction n as [|n' IHn]; intros s acc; [discriminate|].
+    cbn [arr_loop_of]. destruct (trim_left s) as [|c r']; [discriminate|].
+    destruct (Ascii.eqb c "]"%char); [discriminate|].
+    apply pbind_no_panic; [apply IH|]. intro x.
+    cbv zeta. destruct (trim_left (snd x)) as [|nx r2]; [discriminate|].
+    destruct (Ascii.eqb nx "]"%char); [discriminate|].
+    destruct (Ascii.eqb nx ","%char); [apply IHn|discriminate].
+  Qed.
+
+  Lemma obj_loop_no_panic : forall n s acc, no_panic (obj_loop_of n s acc).
+  Proof.
+    induction n as [|n' IHn]; intros s acc; [discriminate|].
+    cbn [obj_loop_of]. destruct (trim_left s) as [|c r']; [discriminate|].
+    destruct (Ascii.eqb c "}"%char); [discriminate|].
+    apply pbind_no_panic; [apply parse_key_no_panic|]. intro k.
+    apply pbind_no_panic; [apply expect_char_no_panic|]. intro s1.
+    apply pbind_no_panic; [apply IH|]. intro x.
+    destruct (trim_left (snd x)) as [|nx r2]; [discriminate|].
+    cbv zeta. destruct (Ascii.eqb nx "}"%char); [discriminate|].
+    destruct (Ascii.eqb nx ","%char); [apply IHn|discriminate].
+  Qed.
+End Loops.
+
+Theorem parse_value_no_panic cfg : forall fuel s stop, no_panic (parse_value cfg fuel s stop).
+Proof.
+  induction fuel as [|f IH]; intros s stop; [discriminate|].
+  rewrite parse_value_unfold. destruct (trim_left s) as [|a r]; [discriminate|].
+  destruct (Ascii.eqb a "["%char && c_array cfg); [apply arr_loop_no_panic; exact IH|].
+  destruct (Ascii.eqb a "{"%char && c_object cfg); [apply obj_loop_no_panic; exact IH|].
+  destruct (Ascii.eqb a """"%char && c_dq cfg).
+  { apply pbind_no_panic; [apply parse_dquote_no_panic|]. intro x. discriminate. }
+  destruct (Ascii.eqb a "'"%char && c_sq cfg).
+  { apply pbind_no_panic; [apply parse_squote_no_panic|]. intro x. discriminate. }
+  apply parse_primitive_no_panic.
+Qed.
+
+Theorem parse_top_no_panic cfg : forall n s acc, no_panic (parse_top cfg n s acc).
+Proof.
+  induction n as [|n' IH]; intros s acc; [discriminate|].
+  cbn [parse_top]. apply pbind_no_panic; [apply parse_value_no_panic|]. intro x.
+  destruct (trim_left (snd x)) as [|c r]; [discriminate|].
+  apply pbind_no_panic; [apply expect_char_no_panic|]. intro s3. apply IH.
+Qed.
+
+Theorem parse_never_panics cfg content : parse_value_with_config cfg content <> PPanic.
+Proof.
+  unfold parse_value_with_config. destruct (negb (valid_cfg cfg)); [discriminate|]. apply parse_top_no_panic.
+Qed.
